@@ -556,11 +556,27 @@ pub fn check_font_roundtrip(ctx: &mut Ctx, spec: &FontSpec) -> Option<Vec<u8>> {
                     let ey = inferred[i].1 - Frac::new(orig[i].1 as i128, 4);
                     let err = (ex * ex + ey * ey).to_f64().sqrt();
                     if err > allowed + 1e-6 {
-                        viol(ctx, spec, "optional-delta", gid, ti,
-                             json!({"what": "omitted delta not reproduced by spec inference within the tolerance it was declared optional under",
+                        // same diagnosis as in wl_iup: is the miss caused by the
+                        // rounding of retained non-integer deltas?
+                        let unrounded: Vec<Option<(Frac, Frac)>> = explicit
+                            .iter()
+                            .enumerate()
+                            .map(|(k, e)| e.map(|_| (Frac::new(orig[k].0 as i128, 4), Frac::new(orig[k].1 as i128, 4))))
+                            .collect();
+                        let inf_u = infer::<Frac>(&g.coords, &g.ends, &unrounded);
+                        let ux = inf_u[i].0 - Frac::new(orig[i].0 as i128, 4);
+                        let uy = inf_u[i].1 - Frac::new(orig[i].1 as i128, 4);
+                        let unrounded_ok = (ux * ux + uy * uy).to_f64().sqrt() <= tol + 1e-6;
+                        let detail = json!({"what": "omitted delta not reproduced by spec inference within the tolerance it was declared optional under",
                                     "point": i, "inferred": [inferred[i].0.to_f64(), inferred[i].1.to_f64()],
-                                    "input": [orig[i].0 as f64 / 4.0, orig[i].1 as f64 / 4.0], "error": err, "allowed": allowed}), &bytes);
-                        ok = false;
+                                    "inferred_from_unrounded_neighbours": [inf_u[i].0.to_f64(), inf_u[i].1.to_f64()],
+                                    "input": [orig[i].0 as f64 / 4.0, orig[i].1 as f64 / 4.0], "error": err, "allowed": allowed});
+                        if fractional && unrounded_ok {
+                            ctx.violation("iup:optional-exceeds-tolerance-after-rounding:fractional-input:same-coordinate-neighbours", detail, Some(&bytes));
+                        } else {
+                            viol(ctx, spec, "optional-delta", gid, ti, detail, &bytes);
+                            ok = false;
+                        }
                         break;
                     }
                 }
